@@ -171,7 +171,7 @@ Section Interp.
 
   Lemma eval_cells_perm : forall lam l l', Permutation l l' -> eval_cells lam l = eval_cells lam l'.
   Proof.
-    intros lam. induction 1; cbn [eval_cells fold_right] in *.
+    intros lam. unfold eval_cells. induction 1; cbn [fold_right].
     - reflexivity.
     - now f_equal.
     - rewrite !vadd_assoc. f_equal. apply vadd_comm.
@@ -182,7 +182,7 @@ Section Interp.
   Lemma eval_cells_app : forall lam a b,
     eval_cells lam (a ++ b) = vadd (eval_cells lam a) (eval_cells lam b).
   Proof.
-    intros lam a b. induction a as [|x a IH]; cbn [app eval_cells fold_right] in *.
+    intros lam a b. unfold eval_cells. induction a as [|x a IH]; cbn [app fold_right].
     - now rewrite vadd_0_l.
     - rewrite IH. apply vadd_assoc.
   Qed.
@@ -193,7 +193,7 @@ Section Interp.
   Lemma eval_cells_zero : phi_zero -> forall lam l,
     Forall (fun c : cell => fst c = snd c) l -> eval_cells lam l = vzero.
   Proof.
-    intros Hz lam l H. induction H as [|c l Hc _ IH]; cbn [eval_cells fold_right] in *; [reflexivity|].
+    intros Hz lam l H. unfold eval_cells. induction H as [|c l Hc _ IH]; cbn [fold_right]; [reflexivity|].
     rewrite IH, Hc, Hz. apply vadd_0_l.
   Qed.
 End Interp.
